@@ -311,6 +311,10 @@ def cells_for(tier, rng):
         add('a' * 7, 2, 26, 1)       # V27 forced: 13-bit count
     else:
         add('d' * 4, 1, 9, 0)
+    # count-width classes end-to-end: the count field of every mode decoded at the first version of each class and its
+    # neighbour (forced versions with short payloads; V26/V27 cells cost 20-40 s each and run in parallel)
+    for (v, m, cls) in ((8, 0, 'd'), (9, 1, 'a'), (9, 2, 'b'), (25, 0, 'd'), (26, 0, 'd'), (26, 1, 'a'), (25, 1, 'a')):
+        add(cls * 5, rng.randrange(4), v, m)
     # beyond capacity
     add('d' * 7090, 0, None, 0)
     add('B' + 'b' * 2953, 0, None, None)
